@@ -59,29 +59,30 @@ Theorem C11_connectivity : forall c n, g_conn c = true -> gconn_run c n = gspec_
 Proof. exact conn_refines_spec. Qed.
 Print Assumptions C11_connectivity.
 
-(* refutations on the faithful model (replayed on the real code: corpus/C11) *)
+(* repaired in /repo (fixes D71, D70, D72, D45; model switches Gamma.fixed_dde_steps, Ring.fixed_D15 = true).  Before the repairs
+   dde_approx without spread took the delay in STEPS (rate 2/4 instead of 2/(1/2) = 4 at dt = 1/8), dde_approx > 0 turned an
+   edge WITHOUT delay on a buffered source into a kernel of mean one time unit, index-array write-backs were read one call late and
+   a permuted full cover of the source vector swapped sources; the former witnesses are now inside the guards (regression cases in
+   corpus/C11) *)
 Definition dt8 := mkq 1 8.
 Definition S1 := mkNode true 0 (mkq 1 1) (mkq 1 2).
 Definition T0 := mkNode false 0 (mkq 0 1) (mkq 0 1).
-(* dde_approx = 2 without spread under a fixed step: the delay is taken in STEPS, rate = 2/4 instead of 2/(1/2) = 4 *)
 Definition w_dde := mkGC dt8 false 2 [S1; T0] [mkG 0 1 (mkq 1 1) (Some (mkq 1 2, None))].
-Theorem C11_refuted_dde_steps : gwf w_dde = true /\ g_all_spread w_dde = false /\
-  impl_params w_dde = [(2%nat, mkq 1 2)] /\ spec_params w_dde = [(2%nat, mkq 4 1)] /\
-  gimpl_run w_dde 6 <> Ok (gspec_run w_dde 6).
-Proof.
-  split; [vm_compute; reflexivity|]. split; [vm_compute; reflexivity|].
-  split; [vm_compute; f_equal; f_equal; apply Qc_is_canon; reflexivity|].
-  split; [vm_compute; f_equal; f_equal; apply Qc_is_canon; reflexivity|].
-  apply res_eqb_false_neq. vm_compute. reflexivity.
-Qed.
-Print Assumptions C11_refuted_dde_steps.
-(* dde_approx > 0: an edge WITHOUT delay that shares its source with a (d, s) edge gets a kernel of mean one time unit *)
 Definition w_kernel := mkGC dt8 false 2 [S1; T0; T0]
   [mkG 0 1 (mkq 1 1) (Some (mkq 2 1, Some (mkq 1 1))); mkG 0 2 (mkq 1 1) None].
-Theorem C11_refuted_undelayed_kernel : gwf w_kernel = true /\ g_no_undelayed_kernel w_kernel = false /\
-  gimpl_run w_kernel 6 <> Ok (gspec_run w_kernel 6).
-Proof. split; [vm_compute; reflexivity|]. split; [vm_compute; reflexivity|]. apply res_eqb_false_neq. vm_compute. reflexivity. Qed.
-Print Assumptions C11_refuted_undelayed_kernel.
+Example C11_fixed_dde_and_kernel : gwf w_dde = true /\ gguards w_dde = true /\ gwf w_kernel = true /\ gguards w_kernel = true /\
+  map fst (impl_params w_dde) = [2%nat] /\ forallb (fun p => Qceqb (snd p) (mkq 4 1)) (impl_params w_dde) = true /\
+  gimpl_run w_dde 6 = Ok (gspec_run w_dde 6) /\ gimpl_run w_kernel 6 = Ok (gspec_run w_kernel 6).
+Proof.
+  repeat (split; [vm_compute; reflexivity|]). split; apply C11_partial; vm_compute; reflexivity.
+Qed.
+Print Assumptions C11_fixed_dde_and_kernel.
+(* the kernel guard holds of every circuit now *)
+Theorem C11_kernel_guard_trivial : forall c, g_no_undelayed_kernel c = true.
+Proof. exact kernel_guard_trivial. Qed.
+Print Assumptions C11_kernel_guard_trivial.
+
+(* what remains refuted on the faithful model (replayed on the real code: corpus/C11) *)
 (* vectorize=True, a single-unit source, two slots in one chain: IndexError at the first call (loud) *)
 Definition w_shared := mkGC dt8 true 0 [S1; T0; T0]
   [mkG 0 1 (mkq 1 1) (Some (mkq 2 1, Some (mkq 1 1))); mkG 0 2 (mkq 1 1) (Some (mkq 2 1, Some (mkq 1 1)))].
@@ -97,7 +98,9 @@ Example C11_permuted_sources_ok : gwf w_perm = true /\ gguards w_perm = true /\ 
 Proof. split; [vm_compute; reflexivity|]. split; [vm_compute; reflexivity|]. apply C11_partial; vm_compute; reflexivity. Qed.
 Print Assumptions C11_permuted_sources_ok.
 Theorem C11_full_refuted : ~ C11_full_statement.
-Proof. intros H. destruct C11_refuted_undelayed_kernel as [Hw [_ Hne]]. apply Hne, H, Hw. Qed.
+Proof.
+  intros H. destruct C11_refuted_scalar_shared_chain as [Hw [_ He]]. specialize (H w_shared 6%nat Hw). rewrite He in H. discriminate.
+Qed.
 Print Assumptions C11_full_refuted.
 
 (* non-vacuity: two edges sharing a source with (d,s) = (2,1) -> n = 4, a = 2 and (2, 4/5) -> n = 6, a = 3, a third one
